@@ -36,6 +36,11 @@ pub struct Case {
   /// carries `type: "json"` (see `json_subdomain`)
   #[serde(default)]
   pub json_world: bool,
+  /// restrict the world (in every version) to the sub-domain of code modules
+  /// in which a structural class of targets is imported as a text / bytes
+  /// asset by every import (see `asset_subdomain`); such targets may be roots
+  #[serde(default)]
+  pub asset_world: bool,
 }
 
 fn params(tier: Tier) -> GenParams {
@@ -135,6 +140,7 @@ pub fn spec() -> PropSpec<Case> {
             edits,
             reload_via_redirect: repeat % 2 == 1,
             json_world: repeat % 8 >= 6,
+            asset_world: repeat % 8 == 5,
           }
         })
         .boxed()
@@ -280,10 +286,95 @@ fn json_subdomain(w: &mut World) {
   }
 }
 
+/// The attribute an import of `target` carries in the asset sub-domain.
+fn asset_class(target: &str) -> Option<&'static str> {
+  if target.contains("/sub/") {
+    Some("text")
+  } else if target.ends_with(".mjs") || target.ends_with(".mts") {
+    Some("bytes")
+  } else {
+    None
+  }
+}
+
+/// The asset sub-domain: only JS / TS modules; every import of a target of
+/// the structural asset class carries `type: "text"` / `type: "bytes"` (the
+/// build enables both), every other import carries none. Asset-class targets
+/// may be roots: a root is not an import, so the proviso holds, and the same
+/// specifier is then an asset for its importers' builds and a module for its
+/// own.
+fn asset_subdomain(w: &mut World) {
+  let is_code = |k: &str| {
+    [".ts", ".tsx", ".js", ".jsx", ".mjs", ".mts"].iter().any(|e| k.ends_with(e)) && !k.ends_with(".d.ts")
+  };
+  let keys: Vec<String> = w.entries.keys().cloned().collect();
+  for k in &keys {
+    let keep = matches!(w.entries.get(k), Some(Entry::Src { .. })) && is_code(k);
+    if !keep {
+      w.entries.remove(k);
+    }
+  }
+  let keys: Vec<String> = w.entries.keys().cloned().collect();
+  for k in keys {
+    let Some(Entry::Src { items, headers, .. }) = w.entries.get_mut(&k) else { continue };
+    headers.clear();
+    items.retain(|it| matches!(it, world::Item::Import { .. } | world::Item::SideEffect { .. } | world::Item::Dynamic { .. } | world::Item::Filler));
+    for it in items.iter_mut() {
+      if let world::Item::Import { types, .. } | world::Item::Dynamic { types, .. } = it {
+        *types = None;
+      }
+      let (spec, attr) = match it {
+        world::Item::Import { spec, attr, .. } | world::Item::SideEffect { spec, attr } | world::Item::Dynamic { spec, attr, .. } => (spec.clone(), attr),
+        _ => continue,
+      };
+      let t = world::resolve_key(&k, &spec);
+      *attr = asset_class(&t).map(|a| a.to_string());
+    }
+  }
+}
+
 pub fn check(case: &Case, _tier: Tier) -> Outcome {
   let mut o = Outcome::default();
   let restricted;
-  let case = if case.json_world {
+  let case = if case.asset_world {
+    let mut c = case.clone();
+    asset_subdomain(&mut c.build.world);
+    c.build.imports.clear();
+    c.build.opts.unstable_text = true;
+    c.build.opts.unstable_bytes = true;
+    c.build.roots.retain(|r| c.build.world.entries.contains_key(r));
+    // an asset-class module that some other module imports is a good root
+    let imported_assets: Vec<String> = c
+      .build
+      .world
+      .entries
+      .keys()
+      .filter(|k| asset_class(k).is_some())
+      .cloned()
+      .collect();
+    if let Some(k) = imported_assets.get(idx(c.repeat, imported_assets.len().max(1))) {
+      if !c.build.roots.contains(k) {
+        c.build.roots.push(k.clone());
+      }
+    }
+    if c.build.roots.is_empty() {
+      if let Some(k) = c.build.world.entries.keys().next().cloned() {
+        c.build.roots.push(k);
+      }
+    }
+    if c.build.roots.is_empty() {
+      let mut c = case.clone();
+      c.asset_world = false;
+      restricted = c;
+      &restricted
+    } else {
+      c.reload_via_redirect = false;
+      c.json_world = false;
+      restricted = c;
+      o.label("asset-sub-domain");
+      &restricted
+    }
+  } else if case.json_world {
     let mut c = case.clone();
     json_subdomain(&mut c.build.world);
     c.build.imports.clear();
@@ -386,6 +477,9 @@ pub fn check(case: &Case, _tier: Tier) -> Outcome {
       let mut new_world = apply_edits(&world, round, &b.roots, &b.imports);
       if case.json_world {
         json_subdomain(&mut new_world);
+      }
+      if case.asset_world {
+        asset_subdomain(&mut new_world);
       }
       let changed: Vec<String> = world
         .entries
